@@ -59,7 +59,7 @@ func c09Node(t *rapid.T, depth int, budget *int) string {
 	}
 	switch tag {
 	case "img":
-		return `<img` + attrs + ` src="` + rapid.SampledFrom([]string{"data:image/svg+xml,%3Csvg xmlns='http://www.w3.org/2000/svg' width='4' height='4'/%3E", "missing.png"}).Draw(t, "src") + `" alt="` + rapid.SampledFrom([]string{"", "alt"}).Draw(t, "alt") + `">`
+		return `<img` + attrs + ` src="` + rapid.SampledFrom([]string{"data:image/png;base64,iVBORw0KGgoAAAANSUhEUgAAAAEAAAABCAYAAAAfFcSJAAAADUlEQVR42mP8z8BQDwAEhQGAhKmMIQAAAABJRU5ErkJggg==", "data:image/svg+xml,%3Csvg xmlns='http://www.w3.org/2000/svg' width='4' height='4'/%3E", "missing.png"}).Draw(t, "src") + `" alt="` + rapid.SampledFrom([]string{"", "alt"}).Draw(t, "alt") + `">`
 	case "br", "col":
 		return "<" + tag + attrs + ">"
 	case "input":
@@ -253,6 +253,18 @@ func (w *c09Walker) visit(box bo.Box, parent bo.Box) {
 	case bo.ReplacedT.IsInstance(box):
 		if len(bf.Children) != 0 {
 			w.fail("replaced-has-children", "%s is a replaced box with %d children", name, len(bf.Children))
+		}
+		// the outer display type of the element decides the level of its box (items of flex and grid
+		// containers are blockified by their container and judged there)
+		if parent != nil && !bo.FlexContainerT.IsInstance(parent) && !bo.GridContainerT.IsInstance(parent) {
+			d := bf.Style.GetDisplay()
+			switch {
+			case d[0] == "block" && !isBlockLevel(box):
+				w.fail("replaced-level:block", "%s has display %v (block-level) but its box is %s", name, d, box.Type())
+			case d[0] == "inline" && !isInlineLevel(box):
+				w.fail("replaced-level:inline", "%s has display %v (inline-level) but its box is %s", name, d, box.Type())
+			}
+			w.labels["replaced-display:"+d[0]] = true
 		}
 	case isTable:
 		if parent == nil || !parent.Box().IsTableWrapper {
